@@ -1,7 +1,12 @@
 package mon
 
 import (
+	"bytes"
+	"encoding/json"
 	"fmt"
+	"math"
+	"math/big"
+	"reflect"
 	"strings"
 	"unicode/utf8"
 
@@ -36,6 +41,13 @@ func c08Setup(c *Ctx) {
 	// a hostile document: foreign values and odd numbers
 	c08Go = append(c08Go, map[string]any{"a": struct{ X int }{1}, "b": []string{"x"}, "xs": []any{1, 2.5, nil}, "o": map[string]any{"a": make(chan int)}})
 	c08Docs = append(c08Docs, nil) // not modelled
+	// top-level documents of standard-library types, useful / malformed / typed nil: a static fault
+	// is reported before anything looks at the document, whatever the document is
+	for _, d := range []any{json.RawMessage(`{"a":1,"xs":[3,1,2]}`), json.RawMessage(`{"a": `), json.RawMessage(`{"a":1} x`), json.RawMessage(``), []byte(`{"a": `), (*big.Int)(nil), big.NewInt(3),
+		strings.NewReader(`{"a": `), (*bytes.Buffer)(nil), error((*nilStringer)(nil)), (*map[string]any)(nil), reflect.Value{}, func() {}, (*json.RawMessage)(nil), math.NaN()} {
+		c08Go = append(c08Go, d)
+		c08Docs = append(c08Docs, nil)
+	}
 }
 
 // contract checks on one failing (or succeeding) call
